@@ -67,6 +67,13 @@ def snapshot_script(impl, ulines):
 
 def values(impl, meta, with_cached=False):
     out = []
+    # statistics and validation are functions of the configuration too (implementation-only observations)
+    for f in meta['fits']:
+        for cmd in ('stats %d' % f, 'validate %d' % f):
+            try:
+                out.append((cmd, impl.run(cmd)))
+            except Exception as e:  # noqa
+                out.append((cmd, 'raise ' + type(e).__name__))
     for l in observation(meta):
         if l.startswith(('get ', 'effects ', 'fitdump ')):
             out.append((l, impl.run(l)))
@@ -185,6 +192,49 @@ def teardown_lines(meta):
     return out
 
 
+def retained_items(impl):
+    """generic emptiness walk after tear-down: every item object that is still referenced from a service
+    object (statistics, restrictions, RAH simulator, message broker of a fit; calculator of a solar system),
+    following attributes of eos objects and the contents of containers, not following fits, solar systems
+    and items themselves. -> list of (where, item id)"""
+    import eos
+    from eos.item.mixin.base import BaseItemMixin
+    from eos import Fit, SolarSystem
+    found = []
+    seen = set()
+
+    def walk(obj, path, depth):
+        if depth > 8 or id(obj) in seen:
+            return
+        if isinstance(obj, BaseItemMixin):
+            found.append((path, obj))
+            return
+        if isinstance(obj, (Fit, SolarSystem)) or obj is None or isinstance(obj, (int, float, str, bytes, bool, type)):
+            return
+        seen.add(id(obj))
+        if isinstance(obj, dict):
+            for k, v in list(obj.items()):
+                walk(k, path + '{k}', depth + 1)
+                walk(v, path + '[%s]' % (getattr(k, '__name__', None) or type(k).__name__), depth + 1)
+        elif isinstance(obj, (list, tuple, set, frozenset)):
+            for v in list(obj):
+                walk(v, path + '[]', depth + 1)
+        elif type(obj).__module__.startswith('eos.'):
+            d = getattr(obj, '__dict__', None)
+            if d:
+                for k, v in list(d.items()):
+                    walk(v, path + '.' + k.split('__')[-1], depth + 1)
+            if hasattr(obj, '__slots__'):
+                for k in obj.__slots__:
+                    walk(getattr(obj, k, None), path + '.' + k, depth + 1)
+    for f, fit in impl.fits.items():
+        for name in ('stats', '_restriction', '_Fit__rah_sim', '_FitMsgBroker__subscribers'):
+            walk(getattr(fit, name, None), 'fit%d.%s' % (f, name.split('__')[-1]), 0)
+    for s, ss in impl.sss.items():
+        walk(ss._calculator, 'solsys%d.calculator' % s, 0)
+    return found
+
+
 def oracle_c11(ulines, lines, meta):
     """after complete tear-down no calculator register retains an entry"""
     impl = eng_impl.Impl()
@@ -196,6 +246,22 @@ def oracle_c11(ulines, lines, meta):
         r = impl.run(l)
         if r.startswith('exn Internal'):
             return dict(fails='tear-down %r raised %s' % (l, r[4:]))
+    # generic emptiness walk: no service object may still refer to an item that left its fit
+    chars_all = {id(fit.character) for fit in impl.fits.values()}
+    for where, obj in retained_items(impl):
+        if id(obj) not in chars_all:
+            return dict(fails='after tear-down %s still refers to item %s' % (where, impl.iid(obj)))
+    # validation after tear-down can only concern the characters (everything else left the fits)
+    for f in meta['fits']:
+        try:
+            r = impl.run('validate %d' % f)
+        except Exception as e:  # noqa
+            r = 'raise ' + type(e).__name__
+        chars = {impl.iid(impl.fits[f].character)} if f in impl.fits else set()
+        for ent in r.split()[2:]:
+            who = ent.split(':', 1)[0]
+            if who not in chars:
+                return dict(fails='after tear-down validation of fit %d still reports item %s: %s' % (f, who, ent[:120]))
     for s in meta['sss']:
         # the characters stay on their fits; fits were removed from the solar systems
         r = impl.run('regs %d' % s)
